@@ -61,7 +61,9 @@ def gen_inputs(tier, rng):
         elif k == 5:
             b = rng.choice(BASE)
             segs = b.split('\r')
-            segs.insert(rng.randrange(1, len(segs) + 1), rng.choice(['', 'XXX|1', 'PI', 'pid|1', 'ZZZ', 'QRD|1', 'ORO|1', 'ANYHL7SEGMENT|1', 'OBX|1|CE|x||a^b', 'PID' + '|' * 60 + 'x', 'NK1|1|a^b^c^d^e^f^g^h^i^j^k^l^m^n']))
+            segs.insert(rng.randrange(1, len(segs) + 1), rng.choice(['', 'XXX|1', 'PI', 'pid|1', 'ZZZ', 'QRD|1', 'ORO|1', 'ANYHL7SEGMENT|1', 'OBX|1|CE|x||a^b', 'PID' + '|' * 60 + 'x', 'NK1|1|a^b^c^d^e^f^g^h^i^j^k^l^m^n',
+                                                                       # names whose upper-case form has another length (defect D37), other non-ASCII names
+                                                                       'Z\u00df1|a', 'Za\u00df|a|b', 'Z\ufb01a|a', 'z\u00df1|a', 'Z\u0131A|1', 'Z\u00e91|a', 'P\u0131D|1', '\u017fid|1']))
             out.append('\r'.join(segs))
         elif k < 8:
             v = rng.choice(versions)
